@@ -88,6 +88,7 @@ VRT_SCENARIO(uc, "producer/consumer hand-off on one Future/Promise pair") {
     } else if (cons == "get") {
       vrt::Api api{"Get"};
       auto r = std::move(f).Get();
+      VRT_STACK_RETURN();
       vrt::Obs("get", vh::Desc(r));
     } else if (cons == "get_const") {
       vrt::Api api{"GetConst"};
@@ -104,6 +105,7 @@ VRT_SCENARIO(uc, "producer/consumer hand-off on one Future/Promise pair") {
     } else if (cons == "wait") {
       vrt::Api api{"Wait"};
       yaclib::Wait(f);
+      VRT_STACK_RETURN();
       vrt::Obs("waited");
       vrt::Obs("ready", f.Ready() ? "1" : "0");
       kept.emplace(std::move(f));
